@@ -285,7 +285,34 @@ def load_state_dict(E, self, sd, strict=True, assign=False):
     return None
 
 
+def _ctor(init):
+    def f(E, cls, *a, **k):
+        o = Obj(cls)
+        init(E, o, *a, **k)
+        return o
+    return f
+
+
+def module_forward(E, self, x):
+    """forward of the float modules (A-TORCH-NN): Linear -> F.linear, Conv2d -> _conv_forward, LayerNorm -> F.layer_norm."""
+    F = E.ext_modules["torch"].entries["nn"].entries["functional"].entries
+    f = self.fields
+    if self.cls.is_subclass_of(LINEAR_CLS):
+        return E.call(F["linear"], [x, f["weight"], f["bias"]], {})
+    if self.cls.is_subclass_of(CONV2D_CLS):
+        return conv_forward(E, self, x, f["weight"], f["bias"])
+    if self.cls.is_subclass_of(LAYERNORM_CLS):
+        return E.call(F["layer_norm"], [x, f["normalized_shape"], f["weight"], f["bias"], f["eps"]], {})
+    raise Unsupported(f"forward of {self.cls.name}")
+
+
 def install(E):
+    LINEAR_CLS.ns["__construct__"] = Builtin("Linear()", _ctor(linear_init))
+    CONV2D_CLS.ns["__construct__"] = Builtin("Conv2d()", _ctor(conv2d_init))
+    LAYERNORM_CLS.ns["__construct__"] = Builtin("LayerNorm()", _ctor(layernorm_init))
+    MODULE_CLS.ns["__construct__"] = Builtin("Module()", _ctor(module_init))
+    MODULE_CLS.ns["__call__"] = Builtin("Module.__call__", lambda E2, self, *a, **k: E2.call(E2.getattr(self, "forward"), list(a), k))
+    MODULE_CLS.ns["forward"] = Builtin("Module.forward", module_forward)
     for nm, fn in (("named_modules", named_modules), ("named_children", named_children), ("named_parameters", named_parameters),
                    ("parameters", parameters), ("get_submodule", get_submodule), ("_save_to_state_dict", default_save_to_state_dict),
                    ("_load_from_state_dict", default_load_from_state_dict), ("state_dict", state_dict), ("load_state_dict", load_state_dict)):
@@ -297,5 +324,5 @@ def install(E):
     LINEAR_CLS.ns["__init__"] = Builtin("Linear.__init__", linear_init)
     CONV2D_CLS.ns["__init__"] = Builtin("Conv2d.__init__", conv2d_init)
     LAYERNORM_CLS.ns["__init__"] = Builtin("LayerNorm.__init__", layernorm_init)
-    PARAMETER_CLS.ns["__call__"] = Builtin("Parameter", lambda E2, cls, *a, **k: parameter_new(E2, cls, *a, **k))
+    PARAMETER_CLS.ns["__construct__"] = Builtin("Parameter", lambda E2, cls, *a, **k: parameter_new(E2, cls, *a, **k))
     E.ext_setattr_hook = module_setattr_hook
